@@ -4,6 +4,8 @@
 #include <fcntl.h>
 #include <time.h>
 #include <errno.h>
+#include <signal.h>
+#include <sys/wait.h>
 
 FILE *sim_proto;
 int sim_verbose;
@@ -398,7 +400,7 @@ sim_main (int argc, char **argv, const world_t *w)
 {
     const char *mode = NULL, *property = NULL, *file = NULL;
     uint64_t base = 1, first = 0, count = 1, stride = 1, one = 0;
-    int tier = 0, i, recheck = 0, raw_index = 0;
+    int tier = 0, i, recheck = 0, raw_index = 0, fresh_every = 0;
     double deadline = 0;
     int devnull;
 
@@ -419,10 +421,12 @@ sim_main (int argc, char **argv, const world_t *w)
 	else if (!strcmp (argv[i], "--deadline-ms") && i + 1 < argc) deadline = now_ms () + atof (argv[++i]);
 	else if (!strcmp (argv[i], "--recheck") && i + 1 < argc) recheck = atoi (argv[++i]);
 	else if (!strcmp (argv[i], "--raw-index")) raw_index = 1;     /* run seed = run index: exhaustive enumerations */
+	else if (!strcmp (argv[i], "--fresh-every") && i + 1 < argc) fresh_every = atoi (argv[++i]);   /* --run: a forked child per K runs */
 	else if (!strcmp (argv[i], "-v")) sim_verbose = 1;
 	else usage (w);
     }
     if (!mode) usage (w);
+    if (strcmp (mode, "run")) fresh_every = 0;
 
     /* The protocol goes to a private copy of stdout; whatever pixman itself
      * prints to stdout (e.g. "pixman: Disabled ... implementation") is dropped. */
@@ -480,11 +484,35 @@ sim_main (int argc, char **argv, const world_t *w)
 
     /* --run */
     {
-	uint64_t j;
-	int any = 0;
+	uint64_t j, chunk_end = count;
+	int any = 0, in_child = 0;
 	for (j = 0; j < count; j++)
 	{
-	    uint64_t idx = first + j * stride;
+	    uint64_t idx;
+	    if (fresh_every > 0 && !in_child)
+	    {
+		/* State that lives as long as the process (lazily initialised statics, memo tables) is
+		 * cold only once per process: give every K runs a process of their own.  The parent is
+		 * single-threaded here (every scenario joins its threads), so fork() is safe. */
+		pid_t pid;
+		int status = 0;
+		fflush (sim_proto); fflush (stderr);
+		pid = fork ();
+		if (pid < 0) { fprintf (stderr, "pxsim: fork failed\n"); return 2; }
+		if (pid == 0) { in_child = 1; chunk_end = j + (uint64_t)fresh_every < count ? j + (uint64_t)fresh_every : count; }
+		else
+		{
+		    while (waitpid (pid, &status, 0) < 0 && errno == EINTR) ;
+		    if (WIFSIGNALED (status)) { signal (WTERMSIG (status), SIG_DFL); raise (WTERMSIG (status)); return 2; }
+		    if (WEXITSTATUS (status) == 3) break;                                   /* deadline reached in the child */
+		    if (WEXITSTATUS (status) == 1) any = 1;
+		    else if (WEXITSTATUS (status) != 0 && WEXITSTATUS (status) != 66) return WEXITSTATUS (status);   /* sanitizer death etc.: the driver classifies it */
+		    j += (uint64_t)fresh_every - 1;
+		    continue;
+		}
+	    }
+	    if (in_child && j >= chunk_end) break;
+	    idx = first + j * stride;
 	    uint64_t seed = raw_index ? idx : run_seed (base, w->name, property, idx);
 	    scenario_t sc;
 	    result_t r;
@@ -492,6 +520,7 @@ sim_main (int argc, char **argv, const world_t *w)
 	    if (deadline && now_ms () > deadline)
 	    {
 		fprintf (sim_proto, "TRUNC %llu\n", (unsigned long long)j);
+		if (in_child) { print_counters (); fflush (sim_proto); exit (3); }
 		break;
 	    }
 	    sc_init (&sc);
@@ -526,6 +555,7 @@ sim_main (int argc, char **argv, const world_t *w)
 	    sc_free (&sc);
 	}
 	print_counters ();
+	if (in_child) { fflush (sim_proto); exit (any ? 1 : 0); }
 	fprintf (sim_proto, "END\n");
 	fflush (sim_proto);
 	return any ? 1 : 0;
